@@ -297,9 +297,11 @@ def h_scratch(H):
 FIXM = os.path.join(os.path.dirname(spikeglx.__file__), "tests", "fixtures", "sample3B_g0_t0.imec1.ap.meta")
 
 
-def _mk_pair(d, ns, nc, rng, keep=("bin", "cbin"), chunk_s=0.05):
+def _mk_pair(d, ns, nc, rng, keep=("bin", "cbin"), chunk_s=0.05, smooth=False):
     b = os.path.join(d, "rec.imec1.ap.bin")
     D = rng.integers(-32768, 32768, size=(ns, nc), dtype=np.int16)
+    if smooth:      # compressible content: the .cbin is much smaller than the .bin
+        D = np.cumsum(rng.integers(-3, 4, size=(ns, nc)), axis=0).astype(np.int16)
     D.tofile(b)
     with open(FIXM) as f, open(b[:-3] + "meta", "w") as g:
         for line in f:
@@ -368,6 +370,40 @@ def b_native(B):
                 shutil.rmtree(d, ignore_errors=True)
     r = replay_companion({}, "")
     B.case("companion_real_files", not r["failed"], detail=r)
+    # the same Reader object across in-place conversions: after compress_file / decompress_file(keep_original=False) the object is re-opened on the new file
+    for ns in (chunk + 1, 2 * chunk + 7):
+        d = tempfile.mkdtemp(prefix="c02_")
+        try:
+            files = _mk_pair(d, ns, 385, rng, keep=("bin",), smooth=(ns == 2 * chunk + 7))
+            D = files["D"]
+            sr = spikeglx.Reader(files["bin"], sort=False)
+            want = sr[:, :].copy()
+            hist = []
+            sr.compress_file(keep_original=False, chunk_duration=0.05)
+            sr.close()      # NB Reader.close() leaves is_open True and reading a closed memmap crashes the interpreter: always re-open explicitly (outside the statement of C02)
+            sr.open()
+            hist.append(("after compress_file in place", sr.shape == (ns, 385) and str(sr.file_bin).endswith(".cbin") and np.array_equal(sr[:, :], want) and not os.path.exists(files["bin"])))
+            sr.decompress_file(keep_original=False)
+            sr.open()
+            hist.append(("after decompress_file in place", sr.shape == (ns, 385) and str(sr.file_bin).endswith(".bin") and np.array_equal(sr[:, :], want)
+                         and np.array_equal(np.fromfile(files["bin"], dtype=np.int16).reshape(ns, 385), D) and not os.path.exists(files["cbin"])))
+            sr.close()
+            sr.open()
+            hist.append(("re-opened once more", sr.shape == (ns, 385) and np.array_equal(sr[ns - 3:, :], want[ns - 3:])))
+            sr.close()
+            # a fresh Reader built on the compressed file, decompressed in place, then re-opened: sizes cached at construction belong to the .cbin
+            s1 = spikeglx.Reader(files["bin"], sort=False)
+            cb = s1.compress_file(keep_original=False, chunk_duration=0.05)
+            s1.close()
+            s2 = spikeglx.Reader(cb, sort=False)
+            ok_c = s2.shape == (ns, 385) and np.array_equal(s2[:, :], want)
+            s2.decompress_file(keep_original=False)
+            s2.open()
+            hist.append(("reader built on the .cbin, decompressed in place and re-opened", ok_c and s2.shape == (ns, 385) and s2._raw.shape == (ns, 385) and np.array_equal(s2[:, :], want)))
+            s2.close()
+            B.case(("in_place_history", ns), all(o for _, o in hist), detail=[h for h, o in hist if not o])
+        finally:
+            shutil.rmtree(d, ignore_errors=True)
     # failure injected inside mtscomp at each chunk
     import unittest.mock as um
     for keep in (True, False):
